@@ -856,6 +856,11 @@ class ThreadEmitter:
             g = M.funcs.get(n)
             if g is None or not g.defined:
                 raise NotImplementedError('call to undefined external %s from %s' % (n, f.name))
+            import fnmatch as _fn
+            if any(_fn.fnmatch(n, pat) for pat in G.cfg.get('prune_fns', [])) or [f.name, n] in G.cfg.get('prune_calls', []):
+                # schedules that reach this function are outside the bound of the scenario: pruned (assumed away), NOT asserted
+                self.emit('VF_REC_BOUND();')
+                return
             if self.excluded(n) or [f.name, n] in G.cfg.get('exclude_calls', []):
                 self.emit('VF_BAD_ACCESS(0, "call to a function excluded from this scenario (asserted unreachable): %s");' % n)
                 self.emit('VF_ASSUME(0);')
